@@ -2160,7 +2160,16 @@ def merge_pair(ex, c, a, b, st):
         return Ite(c, a, b)
     if is_str(a) and is_str(b):
         a1, b1 = lift_str(a), lift_str(b)
-        return SSeq(z3.If(c, a1.arr, b1.arr), Ite(c, a1.ln, b1.ln), 'str')
+        r = SSeq(z3.If(c, a1.arr, b1.arr), Ite(c, a1.ln, b1.ln), 'str')
+        # ghost provenance tags: 'raw' (taint) is a MAY property and
+        # survives if either side carries it; any other tag is a MUST
+        # property and survives only if both sides agree
+        ta, tb = getattr(a, 'tag', None), getattr(b, 'tag', None)
+        if ta == tb:
+            r.tag = ta
+        elif 'raw' in (ta, tb):
+            r.tag = 'raw'
+        return r
     if isinstance(a, SSeq) and isinstance(b, SSeq) and a.kind == b.kind:
         return SSeq(z3.If(c, a.arr, b.arr), Ite(c, a.ln, b.ln), a.kind)
     if isinstance(a, (Obj, Opt)) or isinstance(b, (Obj, Opt)) or a is None \
